@@ -3,6 +3,7 @@ package checks
 import (
 	"encoding/json"
 	"fmt"
+	"pgregory.net/rapid"
 	"reflect"
 	"strings"
 	"testing"
@@ -65,7 +66,9 @@ var mrows = []mrow{
 			return anyObs(ro.CombineLatestWith2[int, int, int](s[1], s[2])(s[0]))
 		}},
 	{Name: "CombineLatestAll", Family: "combinelatest", K: []int{2, 3}, Model: model.CombineLatest,
-		Build: func(s []ro.Observable[int]) ro.Observable[any] { return anyObs(ro.CombineLatestAll[int]()(ro.Just(s...))) }},
+		Build: func(s []ro.Observable[int]) ro.Observable[any] {
+			return anyObs(ro.CombineLatestAll[int]()(ro.Just(s...)))
+		}},
 	{Name: "Concat", Family: "concat", K: []int{0, 1, 2, 3}, Model: model.Concat,
 		Build: func(s []ro.Observable[int]) ro.Observable[any] { return anyObs(ro.Concat(s...)) }},
 	{Name: "ConcatWith", Family: "concat", K: []int{1, 2, 3}, Model: model.Concat,
@@ -412,4 +415,43 @@ func TestC05_ArrivalOrdersEnumerated(t *testing.T) {
 	}
 	rt.Note("enumerated_scope", "every multi-source row (merge, combine-latest, concat, race, zip, take/skip-until, buffer/sample/throttle-when, sequence-equal families; creation, With, WithN and All forms) x k in {2,3} x every tuple of source scripts (<= 2 values for k=2, <= 1 for k=3; +1 in thorough; endings complete/error/open) x every interleaving, one notification to bubble quiescence at a time")
 	_ = reflect.DeepEqual
+}
+
+// TestC05_ArrivalOrdersRandom: longer scripts than the exhaustive enumeration can
+// afford (up to 3 values per source, three sources included), one drawn
+// interleaving per case, same step oracle.
+func TestC05_ArrivalOrdersRandom(t *testing.T) {
+	currentT = t
+	rapid.Check(t, func(rt_ *rapid.T) {
+		row := &mrows[rapid.IntRange(0, len(mrows)-1).Draw(rt_, "row")]
+		k := rapid.SampledFrom(row.K).Draw(rt_, "k")
+		if k == 0 {
+			k = row.K[len(row.K)-1]
+		}
+		per := make([][][]rt.Ev, k)
+		scripts := make([][]rt.Ev, k)
+		for i := range per {
+			per[i] = sourceScripts(i, 3, row.Same)
+			scripts[i] = per[i][rapid.IntRange(0, len(per[i])-1).Draw(rt_, "script")]
+		}
+		pos := make([]int, k)
+		var as []arrival
+		for {
+			var open []int
+			for i := range scripts {
+				if pos[i] < len(scripts[i]) {
+					open = append(open, i)
+				}
+			}
+			if len(open) == 0 {
+				break
+			}
+			i := rapid.SampledFrom(open).Draw(rt_, "next")
+			as = append(as, arrival{Src: i, Ev: scripts[i][pos[i]]})
+			pos[i]++
+		}
+		c := c05Case{Op: row.Name, K: k, Arrivals: as}
+		c05Run(t, c)
+		rt.Case(caseKey("arr", row.Name, k, arrivalsString(as)), c05NonTrivial(as, k), "random:"+row.Family, func() any { return c })
+	})
 }
